@@ -43,8 +43,42 @@ func classReqNameRegex(r layouts.Record) bool { return !reqNameOK.MatchString(r.
 // short form of --config-settings).
 func classReqDashC(r layouts.Record) bool { return strings.Contains(r.Name, "-C") }
 
+// c03.packagelock_link_entry: a package-lock.json v2/v3 whose "packages" object has a
+// {"resolved": <dir>, "link": true} entry (written by npm for every workspace member and
+// file: dependency next to the entry of the directory itself).
+func classNpmLink(c c03Case) bool {
+	if c.Format != "packagelock" || (c.Layout.Variant == "v1" && c.Layout2.Variant == "v1") {
+		return false
+	}
+	for _, r := range c.Records {
+		if r.A("link") != "" && r.A("dir") != "" {
+			return true
+		}
+	}
+	return false
+}
+
+// c03.gomod_wildcard_rewrites_replacement: a go.mod in which a version-less replace directive
+// for path P is written after a directive that applies to a required module and whose
+// replacement module path is P. Returns the record carrying that earlier directive, or -1.
+func classGoWildcardChain(c c03Case) int {
+	if c.Format != "gomod" {
+		return -1
+	}
+	if i := layouts.GoModWildcardAfterReplacementPath(c.Records, c.Layout); i >= 0 {
+		return i
+	}
+	return layouts.GoModWildcardAfterReplacementPath(c.Records, c.Layout2)
+}
+
 func c03Classes(c c03Case) []string {
 	var out []string
+	if classNpmLink(c) {
+		out = append(out, "c03.packagelock_link_entry")
+	}
+	if classGoWildcardChain(c) >= 0 {
+		out = append(out, "c03.gomod_wildcard_rewrites_replacement")
+	}
 	if c.Format == "requirements" {
 		for _, r := range c.Records {
 			if classReqNameRegex(r) {
@@ -105,13 +139,61 @@ func genC03(col *ev.Collector, format string) func(t *rapid.T) c03Case {
 	return func(t *rapid.T) c03Case {
 		recs := layouts.DrawRecords(t, format, 0, 12)
 		recs = excludeKnownC03(col, format, recs)
-		return c03Case{
+		c := c03Case{
 			Format:  format,
 			Records: recs,
 			Layout:  layouts.DrawLayout(t, format, len(recs)),
 			Layout2: layouts.DrawLayout(t, format, len(recs)),
 		}
+		excludeKnownLayoutC03(col, &c)
+		return c
 	}
+}
+
+// excludeKnownLayoutC03 handles the known-finding classes that depend on the records and the
+// drawn layouts together.
+func excludeKnownLayoutC03(col *ev.Collector, c *c03Case) {
+	if classNpmLink(*c) && col.IsKnown("c03.packagelock_link_entry") {
+		col.Excluded("c03.packagelock_link_entry")
+		for i := range c.Records {
+			if c.Records[i].A("link") != "" {
+				c.Records[i] = withoutAttr(c.Records[i], "link")
+			}
+		}
+	}
+	if col.IsKnown("c03.gomod_wildcard_rewrites_replacement") {
+		// give the earlier directive another replacement path, until no layout is in the class
+		for n := 0; n < 64; n++ {
+			i := classGoWildcardChain(*c)
+			if i < 0 {
+				break
+			}
+			if n == 0 {
+				col.Excluded("c03.gomod_wildcard_rewrites_replacement")
+			}
+			r := withoutAttr(c.Records[i], "")
+			// (the replacement path equals a module path, so it is not a directory; the major
+			// version suffix of the path is kept)
+			if rest, ok := strings.CutPrefix(r.Attrs["replace_name"], "gopkg.in/"); ok {
+				r.Attrs["replace_name"] = "gopkg.in/elsewhere" + fmt.Sprint(n) + "-" + rest
+			} else {
+				r.Attrs["replace_name"] = "example.com/verif/elsewhere" + fmt.Sprint(n) + "/" + r.Attrs["replace_name"]
+			}
+			c.Records[i] = r
+		}
+	}
+}
+
+// withoutAttr returns the record with a private copy of its attributes, minus one.
+func withoutAttr(r layouts.Record, drop string) layouts.Record {
+	cp := map[string]string{}
+	for k, v := range r.Attrs {
+		if k != drop {
+			cp[k] = v
+		}
+	}
+	r.Attrs = cp
+	return r
 }
 
 func checkOneLayout(c c03Case, l layouts.Layout, which string) ([]layouts.Pair, error) {
@@ -129,6 +211,16 @@ func checkOneLayout(c c03Case, l layouts.Layout, which string) ([]layouts.Pair, 
 		return nil, fmt.Errorf("%s (%s layout): Extract(%s) returned an error on a well-formed file: %v\n--- file ---\n%s", c.Format, which, path, xerr, clip(content, 3000))
 	}
 	want := layouts.Expected(c.Format, c.Records, l)
+	// cross-check of the expectation: an independent reader of the rendered bytes that follows
+	// the format's documentation must list what the generator says it wrote
+	if ref, ok, rerr := layouts.ReferenceRead(c.Format, content); ok {
+		if rerr != nil {
+			return nil, fmt.Errorf("harness: %s (%s layout): the reference reader rejects the rendered file: %v\n--- file ---\n%s", c.Format, which, rerr, clip(content, 3000))
+		}
+		if d := diffPairs(want, ref); d != "" {
+			return nil, fmt.Errorf("harness: %s (%s layout): generator expectation and reference reader disagree: %s\n--- file ---\n%s", c.Format, which, d, clip(content, 3000))
+		}
+	}
 	got := pairsOfPackages(inv.Packages)
 	if d := diffPairs(want, got); d != "" {
 		return nil, fmt.Errorf("%s (%s layout): file lists %d packages, Extract(%s) reported %d: %s\n--- file ---\n%s", c.Format, which, len(want), path, len(got), d, clip(content, 3000))
@@ -196,6 +288,9 @@ func propC03(c c03Case) (ev.Outcome, error) {
 	}
 	if nspecial > 0 {
 		classes = append(classes, "has_special_case")
+	}
+	for _, l := range []layouts.Layout{c.Layout, c.Layout2} {
+		classes = append(classes, layouts.ShapeClasses(c.Format, c.Records, l, layouts.Render(c.Format, c.Records, l))...)
 	}
 	return ev.Outcome{NonTrivial: n >= 2 && (len(d1) > 0 || len(d2) > 0), Classes: uniqStr(classes)}, nil
 }
